@@ -25,7 +25,10 @@ def cfgCleanup : Config := ⟨[[.spawn 0, .cleanup 0], [.fire 0]], 1, 1, true⟩
 /-- T0 spawns op0 and runs complete(); T1 completes op0; T2 calls request_stop(). -/
 def cfgStopJoin : Config := ⟨[[.spawn 0, .join 0], [.fire 0], [.stop]], 1, 1, true⟩
 
+/-- T0 runs complete() on the EMPTY scope while T1 spawns op0 (admission racing the close at count 0), then completes it. -/
+def cfgSpawnRace : Config := ⟨[[.join 0], [.spawn 0, .fire 0]], 1, 1, true⟩
+
 def configs : List (String × Config) :=
-  [("v0_complete", cfgComplete), ("v0_cleanup", cfgCleanup), ("v0_stop_join", cfgStopJoin)]
+  [("v0_complete", cfgComplete), ("v0_cleanup", cfgCleanup), ("v0_stop_join", cfgStopJoin), ("v0_spawn_race", cfgSpawnRace)]
 
 end Unifex.Proto.ScopeV0
